@@ -30,8 +30,16 @@
 enum Mode { REAL = 0, FP = 1 };
 static Mode mode = REAL;
 static z3::context* ctx;
-static z3::solver* slv;
-struct Term { z3::expr n; z3::expr d; bool d1; };   // value = n/d ; d1: denominator literally 1 (FP mode: only n used)
+static z3::solver* slv;   // incremental SMT core: used while everything is linear (and for FP mode)
+static z3::solver* nls;   // qfnra-nlsat tactic solver: used as soon as the path condition or the query is nonlinear
+static bool pc_nonlinear = false;
+static void add_pc(const z3::expr& c);
+// REAL mode: value = c * prod(nf) / prod(df); c a rational numeral, nf/df monic-normalised polynomial factors (sum-of-monomials
+// normal form, leading coefficient 1), every denominator factor carries its sign on this path (s = +1/-1, established by a
+// solver query when the division was executed).  Syntactically equal factors cancel, so (a/b)/(c/b) stays a/c.
+// FP mode: only c is used (a Float64 term).
+struct DF { z3::expr f; int s; };
+struct Term { z3::expr c; std::vector<z3::expr> nf; std::vector<DF> df; };
 static std::vector<Term>* terms;
 static z3::params* somp;
 static z3::expr norm(const z3::expr& e) { return e.simplify(*somp); }
@@ -45,7 +53,7 @@ static int outfd = 1;
 struct Shared {
   volatile int active; int maxprocs;
   long paths_ok, paths_fail, paths_pruned, paths_abort, paths_cut, paths_crash;
-  long solver_calls, forks, unknowns, by_norm, asserts, q_sat, q_unsat, maxdepth;
+  long solver_calls, forks, unknowns, by_norm, asserts, q_sat, q_unsat, maxdepth, fresh_solved;
   double solver_s; double deadline;   // absolute seconds (steady clock) after which paths are cut
 };
 static Shared* sh;
@@ -60,7 +68,8 @@ static double now_s() { return std::chrono::duration<double>(std::chrono::steady
 static inline uint64_t bits(double d) { uint64_t b; memcpy(&b, &d, 8); return b; }
 static inline bool is_sym(double d) { return (bits(d) & TAGMASK) == TAG; }
 static double mk_handleT(const Term& t) { terms->push_back(t); uint64_t b = TAG | (uint64_t)(terms->size() - 1); double d; memcpy(&d, &b, 8); return d; }
-static double mk_handle(const z3::expr& e) { return mk_handleT(Term{e, ctx->real_val(1), true}); }
+static Term texpr(const z3::expr& e);
+static double mk_handle(const z3::expr& e);
 
 static void path_exit(int kind, const char* msg);
 static bool detached = false;   // this process runs concurrently with its parent
@@ -70,6 +79,43 @@ static void note_crash(int st) {
   char buf[256]; int n = snprintf(buf, sizeof buf, "{\"kind\":\"CRASH\",\"msg\":\"child terminated abnormally\",\"status\":%d}\n", st);
   if (write(outfd, buf, n) < 0) {}
 }
+#include <sys/time.h>
+// Timing: z3's own timeout uses helper threads that do not survive fork(), so no z3 timeout parameter is ever set.
+// One ITIMER_REAL per process serves both the per-query limit (handler calls Z3_interrupt -> the check returns unknown)
+// and the job's wall budget (handler records the path as CUT and exits).
+static void set_itimer(double sec) {
+  if (sec < 0.02) sec = 0.02;
+  struct itimerval it; memset(&it, 0, sizeof it); it.it_value.tv_sec = (long)sec; it.it_value.tv_usec = (long)((sec - (long)sec) * 1e6);
+  setitimer(ITIMER_REAL, &it, 0);
+}
+static void arm_timer() {      // only the wall budget
+  if (sh->deadline <= 0) { struct itimerval it; memset(&it, 0, sizeof it); setitimer(ITIMER_REAL, &it, 0); return; }
+  set_itimer(sh->deadline - now_s());
+}
+static volatile int query_interrupted = 0;
+static void arm_query(double sec) {   // per-query limit, never beyond the wall budget
+  query_interrupted = 0;
+  if (sh->deadline > 0) { double rem = sh->deadline - now_s(); if (rem < sec) sec = rem; }
+  set_itimer(sec);
+}
+static char cfgbuf[600] = "";
+static void cfg_update() { std::string c; for (size_t i = 0; i < choices->size(); i++) { if (i) c += " "; c += (*choices)[i]; } for (auto& ch : c) if (ch == '"' || ch == '\\') ch = '_'; snprintf(cfgbuf, sizeof cfgbuf, "%s", c.c_str()); }
+static void on_alarm(int) {
+  if (sh->deadline <= 0 || now_s() < sh->deadline - 0.011) {
+    // per-query limit: ask z3 to give up on the running check; the wall-budget timer is re-armed
+    query_interrupted = 1;
+    Z3_interrupt(*ctx);
+    if (sh->deadline > 0) set_itimer(sh->deadline - now_s()); else set_itimer(1.0);   // keep nudging in case the interrupt was lost
+    return;
+  }
+  // wall budget exhausted while inside the solver / simplifier: this path is cut (reported, never counted as success)
+  __sync_fetch_and_add(&sh->paths_cut, 1);
+  char m[900]; int n = snprintf(m, sizeof m, "{\"kind\":\"CUT\",\"msg\":\"wall budget exhausted inside a solver or normalisation call\",\"config\":\"%s\"}\n", cfgbuf);
+  if (write(outfd, m, n) < 0) {}
+  if (detached) __sync_sub_and_fetch(&sh->active, 1);
+  int st; while (wait(&st) > 0) {}
+  _exit(0);
+}
 // returns true in the child. Parent either waits (sequential DFS) or continues concurrently when a slot is free.
 static bool fork_path() {
   fflush(stdout); fflush(stderr);
@@ -77,7 +123,7 @@ static bool fork_path() {
   if (sh->maxprocs > 1) { int a = __sync_add_and_fetch(&sh->active, 1); if (a <= sh->maxprocs) par = true; else __sync_sub_and_fetch(&sh->active, 1); }
   pid_t pid = fork();
   if (pid < 0) { perror("fork"); path_exit(3, "fork failed"); }
-  if (pid == 0) { detached = par; return true; }
+  if (pid == 0) { detached = par; arm_timer(); return true; }
   if (!par) { int st; waitpid(pid, &st, 0); if (!WIFEXITED(st) || WEXITSTATUS(st) != 0) note_crash(st); }
   return false;
 }
@@ -99,46 +145,162 @@ static z3::expr constant(double d) {
   if (e != 0) { z3::expr pw = ctx->real_val(pow2str(e < 0 ? -e : e).c_str()); r = e > 0 ? r * pw : r / pw; }
   return r.simplify();
 }
-static Term T(double d) { if (is_sym(d)) return (*terms)[bits(d) & 0xFFFFFFFFull]; return Term{constant(d), ctx->real_val(1), true}; }
-static z3::expr E(const Term& t) { if (mode == FP || t.d1) return t.n; return t.n / t.d; }
+static std::string numstr(const z3::expr& e) { return std::string(Z3_get_numeral_string(*ctx, e)); }
+static bool is_one(const z3::expr& e) { return e.is_numeral() && numstr(e) == "1"; }
+static bool is_zero(const z3::expr& e) { return e.is_numeral() && numstr(e) == "0"; }
+static int num_sign(const z3::expr& e) { std::string t = numstr(e); return t == "0" ? 0 : (t[0] == '-' ? -1 : 1); }
+static Term tnum(const z3::expr& c) { return Term{c, {}, {}}; }
+static Term tconst(double c) { return tnum(constant(c)); }
+static bool tzero(const Term& t) { return is_zero(t.c); }
+// polynomial -> (leading coefficient, monic polynomial)
+static void split(const z3::expr& p0, z3::expr& lc, z3::expr& monic, bool& isnum) {
+  z3::expr p = norm(p0);
+  if (p.is_numeral()) { lc = p; isnum = true; return; }
+  isnum = false;
+  z3::expr lead = p;
+  if (p.is_app() && p.decl().decl_kind() == Z3_OP_ADD && p.num_args() > 0) lead = p.arg(0);
+  lc = ctx->real_val(1);
+  if (lead.is_numeral()) lc = lead;
+  else if (lead.is_app() && lead.decl().decl_kind() == Z3_OP_MUL && lead.num_args() > 0 && lead.arg(0).is_numeral()) lc = lead.arg(0);
+  if (is_zero(lc)) lc = ctx->real_val(1);
+  monic = is_one(lc) ? p : norm(p / lc);
+}
+static Term texpr(const z3::expr& e) {
+  z3::expr lc(*ctx), mo(*ctx); bool isnum; split(e, lc, mo, isnum);
+  if (isnum) return tnum(lc);
+  return Term{lc, {mo}, {}};
+}
+static double mk_handle(const z3::expr& e) { if (mode == FP) return mk_handleT(Term{e, {}, {}}); return mk_handleT(texpr(e)); }
+static Term T(double d) { if (is_sym(d)) return (*terms)[bits(d) & 0xFFFFFFFFull]; return tconst(d); }
+static z3::expr prod(const std::vector<z3::expr>& v) { z3::expr r = ctx->real_val(1); bool first = true; for (auto& f : v) { if (first) { r = f; first = false; } else r = r * f; } return r; }
+static z3::expr E(const Term& t) {
+  if (mode == FP) return t.c;
+  z3::expr n = t.nf.empty() ? t.c : (is_one(t.c) ? prod(t.nf) : t.c * prod(t.nf));
+  if (t.df.empty()) return n;
+  std::vector<z3::expr> d; for (auto& x : t.df) d.push_back(x.f);
+  return n / prod(d);
+}
 static z3::expr E(double d) { return E(T(d)); }
-static bool is_one(const z3::expr& e) { return e.is_numeral() && (e.to_string() == "1.0" || e.to_string() == "1"); }
-static bool is_zero(const z3::expr& e) { return e.is_numeral() && (e.to_string() == "0.0" || e.to_string() == "0"); }
-static Term mkT(const z3::expr& n, const z3::expr& d) {
-  z3::expr nn = norm(n), dd = norm(d);
-  if (dd.is_numeral()) { if (is_one(dd)) return Term{nn, dd, true}; return Term{norm(nn / dd), ctx->real_val(1), true}; }
-  if (is_zero(nn)) return Term{nn, ctx->real_val(1), true};
-  return Term{nn, dd, false};
+static void cancel(Term& t) {
+  if (tzero(t)) { t.nf.clear(); t.df.clear(); return; }
+  for (size_t i = 0; i < t.nf.size();) {
+    bool hit = false;
+    for (size_t j = 0; j < t.df.size(); j++) if (z3::eq(t.nf[i], t.df[j].f)) { t.nf.erase(t.nf.begin() + i); t.df.erase(t.df.begin() + j); hit = true; break; }
+    if (!hit) i++;
+  }
 }
-static Term tconst(double c) { return Term{constant(c), ctx->real_val(1), true}; }
+static Term tmul(const Term& a, const Term& b) {
+  Term r{norm(a.c * b.c), a.nf, a.df};
+  r.nf.insert(r.nf.end(), b.nf.begin(), b.nf.end()); r.df.insert(r.df.end(), b.df.begin(), b.df.end());
+  cancel(r); return r;
+}
+static Term tneg(const Term& a) { Term r = a; r.c = norm(-a.c); return r; }
+// multiset difference / helpers on factor lists
+static bool take(std::vector<z3::expr>& v, const z3::expr& f) { for (size_t i = 0; i < v.size(); i++) if (z3::eq(v[i], f)) { v.erase(v.begin() + i); return true; } return false; }
 static Term tadd(const Term& a, const Term& b, bool sub) {
-  if (a.d1 && b.d1) return mkT(sub ? a.n - b.n : a.n + b.n, ctx->real_val(1));
-  if (!a.d1 && !b.d1 && z3::eq(a.d, b.d)) return mkT(sub ? a.n - b.n : a.n + b.n, a.d);
-  return mkT(sub ? a.n * b.d - b.n * a.d : a.n * b.d + b.n * a.d, a.d * b.d);
+  if (tzero(b)) return a;
+  if (tzero(a)) return sub ? tneg(b) : b;
+  // common numerator factors are pulled out, denominators brought to their (syntactic) least common multiple
+  std::vector<z3::expr> an = a.nf, bn = b.nf, g;
+  for (size_t i = 0; i < an.size();) { if (take(bn, an[i])) { g.push_back(an[i]); an.erase(an.begin() + i); } else i++; }
+  std::vector<DF> L = a.df; std::vector<z3::expr> ma, mb;   // ma: factors a's numerator must be multiplied with
+  { std::vector<DF> rest = b.df; std::vector<bool> used(a.df.size(), false);
+    for (auto& x : rest) { bool hit = false; for (size_t i = 0; i < a.df.size(); i++) if (!used[i] && z3::eq(a.df[i].f, x.f)) { used[i] = true; hit = true; break; }
+      if (!hit) { L.push_back(x); ma.push_back(x.f); } }
+    for (size_t i = 0; i < a.df.size(); i++) if (!used[i]) mb.push_back(a.df[i].f); }
+  z3::expr A = a.c; for (auto& f : an) A = A * f; for (auto& f : ma) A = A * f;
+  z3::expr B = b.c; for (auto& f : bn) B = B * f; for (auto& f : mb) B = B * f;
+  z3::expr lc(*ctx), mo(*ctx); bool isnum; split(sub ? A - B : A + B, lc, mo, isnum);
+  Term r{lc, g, L};
+  if (!isnum) r.nf.push_back(mo);
+  cancel(r); return r;
 }
-static Term tmul(const Term& a, const Term& b) { return mkT(a.n * b.n, a.d * b.d); }
-static Term tneg(const Term& a) { return mkT(-a.n, a.d); }
-// division without knowing the sign of the divisor: a/b = a.n*b.d*b.n / (a.d*b.n^2)  (keeps d>0)
-static Term tdiv_nosign(const Term& a, const Term& b) { return mkT(a.n * b.d * b.n, a.d * b.n * b.n); }
-// sign-correct polynomial difference: sign(x-y) = sign(p) because denominators are positive
+// an expression whose sign is the sign of x - y on this path (numeral 0 iff identical by normal form)
 static z3::expr diffp(const Term& x, const Term& y) {
-  if (x.d1 && y.d1) return norm(x.n - y.n);
-  if (!x.d1 && !y.d1 && z3::eq(x.d, y.d)) return norm(x.n - y.n);
-  return norm(x.n * y.d - y.n * x.d);
+  Term t = tadd(x, y, true);
+  if (tzero(t)) return ctx->real_val(0);
+  int s = num_sign(t.c); for (auto& d : t.df) s *= d.s;
+  if (t.nf.empty()) return ctx->real_val(s);
+  z3::expr p = prod(t.nf);
+  return s > 0 ? p : -p;
+}
+static bool decide(const z3::expr& c0);
+static void path_exit(int kind, const char* msg);
+// a / b ; establishes the sign of every numerator factor of b (forks where both signs are feasible)
+static Term tdiv(const Term& a, const Term& b) {
+  if (tzero(b)) path_exit(3, "division by zero reachable (REAL mode)");
+  Term inv{norm(ctx->real_val(1) / b.c), {}, {}};
+  for (auto& d : b.df) inv.nf.push_back(d.f);
+  z3::expr zero = ctx->real_val(0);
+  for (auto& f : b.nf) {
+    if (decide(f == zero)) path_exit(3, "division by zero reachable (REAL mode)");
+    int sg = decide(f > zero) ? 1 : -1;
+    inv.df.push_back(DF{f, sg});
+  }
+  return tmul(a, inv);
 }
 
+static unsigned inc_timeout_ms = 1500;
+static std::map<unsigned, bool>* nl_memo;
+static bool is_nonlinear(const z3::expr& e) {
+  if (!e.is_app()) return false;
+  auto it = nl_memo->find(e.id()); if (it != nl_memo->end()) return it->second;
+  bool r = false;
+  Z3_decl_kind k = e.decl().decl_kind(); unsigned na = e.num_args();
+  if (k == Z3_OP_MUL) { unsigned nn = 0; for (unsigned i = 0; i < na; i++) if (!e.arg(i).is_numeral()) nn++; if (nn >= 2) r = true; }
+  else if (k == Z3_OP_POWER) r = true;
+  else if (k == Z3_OP_DIV && na == 2 && !e.arg(1).is_numeral()) r = true;
+  for (unsigned i = 0; i < na && !r; i++) r = is_nonlinear(e.arg(i));
+  nl_memo->insert({e.id(), r});
+  return r;
+}
+static void add_pc(const z3::expr& c) {
+  slv->add(c);
+  if (mode == REAL) { nls->add(c); if (!pc_nonlinear && is_nonlinear(c)) pc_nonlinear = true; }
+}
+static z3::check_result timed_check(z3::solver* s, double sec) {
+  z3::check_result r = z3::unknown;
+  arm_query(sec);
+  try { r = s->check(); } catch (z3::exception&) { r = z3::unknown; }
+  arm_timer();
+  return r;
+}
+// FP mode fallback: a fresh solver (tactic pipeline) sometimes decides what the incremental core gives up on
+static z3::check_result fresh_check(const z3::expr* extra, z3::model* mout) {
+  z3::solver s2(*ctx);
+  for (auto a : slv->assertions()) s2.add(a);
+  if (extra) s2.add(*extra);
+  z3::check_result r = timed_check(&s2, timeout_ms / 1000.0);
+  if (r == z3::sat && mout) *mout = s2.get_model();
+  if (r != z3::unknown) __sync_fetch_and_add(&sh->fresh_solved, 1);
+  return r;
+}
 static z3::check_result check(const z3::expr& extra) {
   double t0 = now_s();
-  slv->push(); slv->add(extra);
-  z3::check_result r = slv->check();
+  z3::check_result r = z3::unknown;
+  if (mode == REAL && (pc_nonlinear || is_nonlinear(extra))) {
+    nls->push(); nls->add(extra); r = timed_check(nls, timeout_ms / 1000.0); nls->pop();
+    __sync_fetch_and_add(&sh->fresh_solved, 1);
+  } else {
+    slv->push(); slv->add(extra); r = timed_check(slv, inc_timeout_ms / 1000.0); slv->pop();
+    if (r == z3::unknown) { if (mode == REAL) { nls->push(); nls->add(extra); r = timed_check(nls, timeout_ms / 1000.0); nls->pop(); } else r = fresh_check(&extra, nullptr); }
+  }
   if (r == z3::unknown && getenv("SYM_DUMP_UNKNOWN")) {
     static int k = 0; char fn[64]; snprintf(fn, 64, "unknown_%d_%d.smt2", (int)getpid(), k++); FILE* f = fopen(fn, "w");
-    if (f) { fprintf(f, "%s\n(check-sat)\n", slv->to_smt2().c_str()); fclose(f); }
+    if (f) { z3::solver s2(*ctx); for (auto a : slv->assertions()) s2.add(a); s2.add(extra); fprintf(f, "%s\n(check-sat)\n", s2.to_smt2().c_str()); fclose(f); }
   }
-  slv->pop();
   __sync_fetch_and_add(&sh->solver_calls, 1);
   if (r == z3::sat) __sync_fetch_and_add(&sh->q_sat, 1); else if (r == z3::unsat) __sync_fetch_and_add(&sh->q_unsat, 1);
   sh->solver_s += now_s() - t0;
+  return r;
+}
+// satisfiability of the current path condition, with a model on request
+static z3::check_result check_path(z3::model* mout) {
+  z3::check_result r = z3::unknown;
+  if (mode == REAL && pc_nonlinear) { r = timed_check(nls, timeout_ms / 1000.0); if (r == z3::sat && mout) *mout = nls->get_model(); return r; }
+  r = timed_check(slv, inc_timeout_ms / 1000.0);
+  if (r == z3::sat && mout) *mout = slv->get_model();
+  if (r == z3::unknown) { if (mode == REAL) { r = timed_check(nls, timeout_ms / 1000.0); if (r == z3::sat && mout) *mout = nls->get_model(); } else r = fresh_check(nullptr, mout); }
   return r;
 }
 
@@ -146,40 +308,43 @@ static std::string jesc(const std::string& s) { std::string o; for (char c : s) 
 
 static std::string model_json(bool& have) {
   have = false;
-  z3::check_result r = z3::unknown;
-  bool pushed = false;
+  z3::model m(*ctx);
+  z3::check_result r = check_path(&m);
+  if (r != z3::sat) return std::string("{}");
+  have = true;
+  // REAL mode: prefer input values that are exactly representable doubles (multiples of 2^-k) when the rounded assignment
+  // still satisfies the whole path condition (checked by substitution, no solver involved) so that the native replay follows the same path
+  std::map<std::string, std::string> rounded;
   if (mode == REAL && !getenv("SYM_NO_DYADIC")) {
-    // prefer a model whose inputs are exactly representable doubles (multiples of 2^-k, k = 4, 10, 20) so that the native replay follows the same path
-    for (int k : {4, 10, 20}) {
-      slv->push(); z3::params p(*ctx); p.set("timeout", 5000u); slv->set(p);
-      z3::expr sc = ctx->real_val(pow2str(k).c_str());
-      for (auto& in : *inputs) { slv->add(z3::expr(*ctx, Z3_mk_is_int(*ctx, in.second * sc))); slv->add(in.second < ctx->real_val("1000000000") && in.second > ctx->real_val("-1000000000")); }
-      r = slv->check();
-      z3::params p2(*ctx); p2.set("timeout", timeout_ms); slv->set(p2);
-      if (r == z3::sat) { pushed = true; break; }
-      slv->pop();
+    for (int k : {4, 12, 24, 40}) {
+      z3::expr_vector from(*ctx), to(*ctx); std::map<std::string, std::string> cand; bool ok = true;
+      for (auto& in : *inputs) { z3::expr v = m.eval(in.second, true); double dv; try { dv = atof(v.get_decimal_string(30).c_str()); } catch (...) { ok = false; break; }
+        if (!std::isfinite(dv) || fabs(dv) > 1e12) { ok = false; break; }
+        double sc = ldexp(1.0, k); double rv = nearbyint(dv * sc) / sc;
+        char b[64]; snprintf(b, 64, "%.0f", rv * sc); z3::expr q = (ctx->real_val(b) / ctx->real_val(pow2str(k).c_str())).simplify();
+        from.push_back(in.second); to.push_back(q); snprintf(b, 64, "%.17g", rv); cand[in.first] = b; }
+      if (!ok) break;
+      bool all = true;
+      for (auto a : slv->assertions()) { z3::expr e = a; z3::expr sub = e.substitute(from, to).simplify(); if (!sub.is_true()) { all = false; break; } }
+      if (all) { rounded = cand; break; }
     }
   }
-  if (r != z3::sat) r = slv->check();
-  if (r != z3::sat) { if (pushed) slv->pop(); return std::string("{}"); }
-  have = true;
-  z3::model m = slv->get_model();
   std::string out = "{";
   bool first = true;
   for (auto& in : *inputs) {
     z3::expr v = m.eval(in.second, true);
     std::string s;
+    if (rounded.count(in.first)) { if (!first) out += ","; first = false; out += "\"" + jesc(in.first) + "\":\"" + rounded[in.first] + "\""; continue; }
     if (mode == FP) {
       z3::expr bv = m.eval(z3::expr(*ctx, Z3_mk_fpa_to_ieee_bv(*ctx, in.second)), true);
       uint64_t u = 0; if (bv.is_numeral_u64(u)) { double dv; memcpy(&dv, &u, 8); char b[64]; snprintf(b, 64, "%a", dv); s = b; } else s = v.to_string();
     } else {
-      if (v.is_numeral()) s = v.get_decimal_string(25); else { try { s = v.get_decimal_string(25); } catch (...) { s = v.to_string(); } }
+      try { s = v.get_decimal_string(25); } catch (...) { s = v.to_string(); }
     }
     if (!first) out += ","; first = false;
     out += "\"" + jesc(in.first) + "\":\"" + jesc(s) + "\"";
   }
   out += "}";
-  if (pushed) slv->pop();
   return out;
 }
 
@@ -199,7 +364,7 @@ static void path_exit(int kind, const char* msg) {
   switch (kind) {
     case 0: {
       // reachability witness: the end of the harness is reached under a path condition the solver confirms satisfiable
-      z3::check_result w = slv->check();
+      z3::check_result w = check_path(nullptr);
       if (w == z3::unsat) { __sync_fetch_and_add(&sh->paths_pruned, 1); break; }   // only possible after an over-approximated 'unknown'
       my_witness = (w == z3::sat) ? "sat" : "unknown";
       __sync_fetch_and_add(&sh->paths_ok, 1); emit("OK", "", false); break; }
@@ -232,8 +397,8 @@ static bool decide(const z3::expr& c0) {
   if (rt == z3::unsat && rf == z3::sat) { return false; }
   if (rt == z3::unsat && rf == z3::unsat) { path_exit(2, "infeasible path condition"); }
   __sync_fetch_and_add(&sh->forks, 1); depth++;
-  if (fork_path()) { slv->add(c); return true; }
-  slv->add(!c); return false;
+  if (fork_path()) { add_pc(c); return true; }
+  add_pc(!c); return false;
 }
 
 static std::map<std::string, z3::func_decl>* ufs;
@@ -268,19 +433,19 @@ static void mono_axioms(const std::string& n, const TApp& me, bool strict) {
   auto& lst = (*tapps)[n];
   z3::expr zero = ctx->real_val(0);
   for (auto& ap : lst) { if (&ap == &me) continue; z3::expr p = diffp(me.arg, ap.arg);   // sign(p) = sign(me.arg - ap.arg)
-    if (strict) { slv->add((p < zero) == (me.val < ap.val)); slv->add((p == zero) == (me.val == ap.val)); }
-    else { slv->add(z3::implies(p <= zero, me.val <= ap.val)); slv->add(z3::implies(p >= zero, me.val >= ap.val)); } }
+    if (strict) { add_pc((p < zero) == (me.val < ap.val)); add_pc((p == zero) == (me.val == ap.val)); }
+    else { add_pc(z3::implies(p <= zero, me.val <= ap.val)); add_pc(z3::implies(p >= zero, me.val >= ap.val)); } }
 }
 static const char* PI_LO = "3141592653589793/1000000000000000";   // < pi
 static const char* PI_HI = "3141592653589794/1000000000000000";   // > pi
 // link f(x)=r with g(r)=x  (inverse pair): registers the application g(r) with value x
 static void inverse_link(const std::string& g, const z3::expr& r, const Term& x) {
   auto& lst = (*tapps)[g];
-  Term tr{r, ctx->real_val(1), true};
-  for (auto& ap : lst) if (same_arg(tr, ap.arg)) { slv->add(ap.val == E(x)); return; }
+  Term tr = texpr(r);
+  for (auto& ap : lst) if (same_arg(tr, ap.arg)) { add_pc(ap.val == E(x)); return; }
   // g(r) gets a definitional value: a fresh constant equal to x
   z3::expr v = ctx->constant((g + "!" + std::to_string(lst.size())).c_str(), *dsort);
-  slv->add(v == E(x));
+  add_pc(v == E(x));
   lst.push_back(TApp{tr, v, 0.0}); lst.back().h = mk_handle(v);
   mono_axioms(g, lst.back(), true);
 }
@@ -296,22 +461,22 @@ static double trans_app(const std::string& n, double a) {
   if (!fresh) return ap.h;
   z3::expr r = ap.val;
   if (n == "exp") { use_axiom("exp: exp(x)>0, strictly increasing, exp(0)=1, x>0<=>exp(x)>1, log(exp(x))=x, exp(x)>=1+x");
-    slv->add(r > zero); slv->add((x == zero) == (r == one)); slv->add((x > zero) == (r > one)); slv->add(r >= one + x); mono_axioms(n, ap, true); inverse_link("log", r, ta); }
+    add_pc(r > zero); add_pc((x == zero) == (r == one)); add_pc((x > zero) == (r > one)); add_pc(r >= one + x); mono_axioms(n, ap, true); inverse_link("log", r, ta); }
   else if (n == "log") { use_axiom("log: defined on x>0, strictly increasing, log(1)=0, x>1<=>log(x)>0, exp(log(x))=x, log(x)<=x-1");
-    slv->add((x == one) == (r == zero)); slv->add((x > one) == (r > zero)); slv->add(r <= x - one); mono_axioms(n, ap, true); inverse_link("exp", r, ta);
+    add_pc((x == one) == (r == zero)); add_pc((x > one) == (r > zero)); add_pc(r <= x - one); mono_axioms(n, ap, true); inverse_link("exp", r, ta);
     // exp(r) = x > 0 is implied by the link; nothing else
   }
   else if (n == "tanh") { use_axiom("tanh: range (-1,1), strictly increasing, odd sign, atanh(tanh(x))=x");
-    slv->add(r > -one && r < one); slv->add((x > zero) == (r > zero)); slv->add((x == zero) == (r == zero)); mono_axioms(n, ap, true); inverse_link("atanh", r, ta); }
+    add_pc(r > -one && r < one); add_pc((x > zero) == (r > zero)); add_pc((x == zero) == (r == zero)); mono_axioms(n, ap, true); inverse_link("atanh", r, ta); }
   else if (n == "atanh") { use_axiom("atanh: defined on (-1,1), strictly increasing, odd sign, tanh(atanh(x))=x");
-    slv->add((x > zero) == (r > zero)); slv->add((x == zero) == (r == zero)); mono_axioms(n, ap, true); inverse_link("tanh", r, ta); }
+    add_pc((x > zero) == (r > zero)); add_pc((x == zero) == (r == zero)); mono_axioms(n, ap, true); inverse_link("tanh", r, ta); }
   else if (n == "atan") { use_axiom("atan: range (-pi/2,pi/2) with pi bracketed by 16-digit rationals, strictly increasing, odd sign, tan(atan(x))=x");
     z3::expr hi = ctx->real_val(PI_HI) / 2, lo = ctx->real_val(PI_LO) / 2; (void)lo;
-    slv->add(r > -hi && r < hi); slv->add((x > zero) == (r > zero)); slv->add((x == zero) == (r == zero)); mono_axioms(n, ap, true); inverse_link("tan", r, ta); }
+    add_pc(r > -hi && r < hi); add_pc((x > zero) == (r > zero)); add_pc((x == zero) == (r == zero)); mono_axioms(n, ap, true); inverse_link("tan", r, ta); }
   else if (n == "tan") { use_axiom("tan: on (-pi/2,pi/2) strictly increasing, odd sign, atan(tan(x))=x");
-    slv->add((x > zero) == (r > zero)); slv->add((x == zero) == (r == zero)); mono_axioms(n, ap, true); inverse_link("atan", r, ta); }
+    add_pc((x > zero) == (r > zero)); add_pc((x == zero) == (r == zero)); mono_axioms(n, ap, true); inverse_link("atan", r, ta); }
   else if (n == "cosh") { use_axiom("cosh: cosh(x)>=1, cosh(x)^2*(1-tanh(x)^2)=1, cosh(-x)=cosh(x)");
-    slv->add(r >= one); double th = trans_app("tanh", a); z3::expr t = E(th); slv->add(r * r * (one - t * t) == one); }
+    add_pc(r >= one); double th = trans_app("tanh", a); z3::expr t = E(th); add_pc(r * r * (one - t * t) == one); }
   else { std::string m = "transcendental '" + n + "' of a symbolic value has no REAL-mode model"; path_exit(3, m.c_str()); }
   return ap.h;
 }
@@ -325,26 +490,26 @@ double __sym_new_double(const char* name) {
 int __sym_choose(const char* name, int lo, int hi) {
   if (const char* fx = getenv("SYM_FIX")) {
     std::string k = std::string(" ") + name + "="; std::string hay = std::string(" ") + fx;
-    size_t p = hay.find(k); if (p != std::string::npos) { int v = atoi(hay.c_str() + p + k.size()); choices->push_back(std::string(name) + "=" + std::to_string(v)); return v; } }
+    size_t p = hay.find(k); if (p != std::string::npos) { int v = atoi(hay.c_str() + p + k.size()); choices->push_back(std::string(name) + "=" + std::to_string(v)); cfg_update(); return v; } }
   for (int v = lo; v < hi; v++) {
     __sync_fetch_and_add(&sh->forks, 1); depth++;
-    if (fork_path()) { choices->push_back(std::string(name) + "=" + std::to_string(v)); return v; }
+    if (fork_path()) { choices->push_back(std::string(name) + "=" + std::to_string(v)); cfg_update(); return v; }
   }
-  choices->push_back(std::string(name) + "=" + std::to_string(hi));
+  choices->push_back(std::string(name) + "=" + std::to_string(hi)); cfg_update();
   return hi;
 }
 void __sym_fail(const char* msg) { path_exit(1, msg); }
 void __sym_prune(void) { path_exit(2, ""); }
 void __sym_check(int cond, const char* msg) { __sync_fetch_and_add(&sh->asserts, 1); my_asserts++; if (!cond) path_exit(1, msg); }
 void __sym_note(const char* msg) { fprintf(stderr, "[note] %s\n", msg); }
-void __sym_label(const char* msg) { choices->push_back(msg); }
+void __sym_label(const char* msg) { choices->push_back(msg); cfg_update(); }
 int __sym_is_symbolic(double d) { return is_sym(d); }
 int __sym_eq(double a, double b) { return __sym_fcmp(1, a, b); }
 int __sym_eq_tol(double a, double b, double tol) { double d = __sym_bin(16, a, b); return __sym_fcmp(5, d, tol) && __sym_fcmp(3, d, -tol); }
 double __sym_concretize(double d) {
   if (!is_sym(d)) return d;
-  if (slv->check() != z3::sat) return NAN;
-  z3::model m = slv->get_model(); z3::expr v = m.eval(E(d), true);
+  z3::model m(*ctx); if (check_path(&m) != z3::sat) return NAN;
+  z3::expr v = m.eval(E(d), true);
   if (mode == FP) { z3::expr bv = m.eval(z3::expr(*ctx, Z3_mk_fpa_to_ieee_bv(*ctx, E(d))), true); uint64_t u = 0; if (bv.is_numeral_u64(u)) { double dv; memcpy(&dv, &u, 8); return dv; } return NAN; }
   try { return atof(v.get_decimal_string(20).c_str()); } catch (...) { return NAN; }
 }
@@ -385,14 +550,7 @@ double __sym_bin(int opc, double a, double b) {
       case 14: return mk_handleT(tadd(a_, b_, false));
       case 16: return mk_handleT(tadd(a_, b_, true));
       case 18: return mk_handleT(tmul(a_, b_));
-      case 21: {
-        z3::expr zero = ctx->real_val(0);
-        if (b_.n.is_numeral()) { if (is_zero(b_.n)) path_exit(3, "division by zero reachable (REAL mode)");
-          Term inv = mkT(b_.d, b_.n); return mk_handleT(tmul(a_, inv)); }
-        if (decide(b_.n == zero)) path_exit(3, "division by zero reachable (REAL mode)");
-        if (decide(b_.n > zero)) return mk_handleT(mkT(a_.n * b_.d, a_.d * b_.n));
-        return mk_handleT(mkT(-a_.n * b_.d, a_.d * (-b_.n)));
-      }
+      case 21: return mk_handleT(tdiv(a_, b_));
       default: path_exit(3, "frem symbolic");
     }
   }
@@ -438,10 +596,10 @@ static long long sym_trunc_enum(double a, const char* what, int modeRound /*0 tr
   Term t = T(a); z3::expr x = E(t);
   for (int iter = 0; iter < 64; iter++) {
     if (sh->deadline > 0 && now_s() > sh->deadline) path_exit(4, "wall budget exhausted");
-    z3::check_result r = slv->check();
+    z3::model m(*ctx); z3::check_result r = check_path(&m);
     if (r == z3::unsat) path_exit(2, "infeasible");
     if (r != z3::sat) path_exit(3, "solver unknown during integer conversion");
-    z3::model m = slv->get_model(); z3::expr v = m.eval(x, true);
+    z3::expr v = m.eval(x, true);
     double dv; try { dv = atof(v.get_decimal_string(30).c_str()); } catch (...) { path_exit(3, "non-numeral model value in integer conversion"); }
     if (fabs(dv) > 1e15) path_exit(3, "integer conversion of an unbounded symbolic value");
     long long k = modeRound == 1 ? (long long)floor(dv) : modeRound == 2 ? (long long)ceil(dv) : (long long)trunc(dv);
@@ -453,10 +611,10 @@ static long long sym_trunc_enum(double a, const char* what, int modeRound /*0 tr
     // the model value itself may sit on a boundary the decimal string rounds across: verify
     if (check(in) != z3::sat) { in = (x >= kk - one) && (x < kk); k = k - 1; if (check(in) != z3::sat) path_exit(3, "integer conversion: could not bracket model value"); }
     z3::check_result other = check(!in);
-    if (other == z3::unsat) { slv->add(in); return k; }
+    if (other == z3::unsat) { add_pc(in); return k; }
     __sync_fetch_and_add(&sh->forks, 1); depth++;
-    if (fork_path()) { slv->add(in); return k; }
-    slv->add(!in);
+    if (fork_path()) { add_pc(in); return k; }
+    add_pc(!in);
   }
   path_exit(3, (std::string("more than 64 feasible integer values in ") + what).c_str());
   return 0;
@@ -482,7 +640,7 @@ double __sym_un(const char* name, double a) {
     if (n == "sqrt") {
       if (decide(diffp(ta, tconst(0)) < ctx->real_val(0))) return NAN;     // sqrt of a negative real is NaN (concrete)
       bool fresh; TApp& ap = get_app("sqrt", ta, fresh);
-      if (fresh) { use_axiom("sqrt: s>=0 and s*s=x"); slv->add(ap.val >= 0 && ap.val * ap.val == x); (*sqrt_of).insert({ap.val.to_string(), ta}); mono_axioms("sqrt", ap, true); }
+      if (fresh) { use_axiom("sqrt: s>=0 and s*s=x"); add_pc(ap.val >= 0 && ap.val * ap.val == x); (*sqrt_of).insert({ap.val.to_string(), ta}); mono_axioms("sqrt", ap, true); }
       return ap.h;
     }
     if (n == "floor") return (double)sym_trunc_enum(a, "floor", 1);
@@ -501,18 +659,18 @@ double __sym_un(const char* name, double a) {
   auto flt = [&](const z3::expr& p, const z3::expr& q) { return z3::expr(*ctx, Z3_mk_fpa_lt(*ctx, p, q)); };
   auto fle = [&](const z3::expr& p, const z3::expr& q) { return z3::expr(*ctx, Z3_mk_fpa_leq(*ctx, p, q)); };
   if (n == "exp") { use_axiom("FP exp: exp(NaN)=NaN, exp(-inf)=+0, exp(+inf)=+inf, exp(x)>=+0 never NaN otherwise, exp(x)<=1 iff x<=0, exp(0)=1, non-decreasing");
-    slv->add(isnan(x) == isnan(r)); slv->add(z3::implies(feq(x, ninf), feq(r, zero))); slv->add(z3::implies(feq(x, pinf), feq(r, pinf)));
-    slv->add(z3::implies(!isnan(x), fle(zero, r))); slv->add(z3::implies(!isnan(x), fle(x, zero) == fle(r, one))); slv->add(z3::implies(feq(x, zero), feq(r, one)));
-    slv->add(z3::implies(!isnan(x) && !feq(x, ninf), flt(zero, r) || flt(x, ctx->fpa_val(-700.0))));
+    add_pc(isnan(x) == isnan(r)); add_pc(z3::implies(feq(x, ninf), feq(r, zero))); add_pc(z3::implies(feq(x, pinf), feq(r, pinf)));
+    add_pc(z3::implies(!isnan(x), fle(zero, r))); add_pc(z3::implies(!isnan(x), fle(x, zero) == fle(r, one))); add_pc(z3::implies(feq(x, zero), feq(r, one)));
+    add_pc(z3::implies(!isnan(x) && !feq(x, ninf), flt(zero, r) || flt(x, ctx->fpa_val(-700.0))));
     static std::vector<std::pair<z3::expr, z3::expr>>* prev = new std::vector<std::pair<z3::expr, z3::expr>>();
-    for (auto& pr : *prev) { slv->add(z3::implies(fle(pr.first, x), fle(pr.second, r))); slv->add(z3::implies(fle(x, pr.first), fle(r, pr.second))); }
+    for (auto& pr : *prev) { add_pc(z3::implies(fle(pr.first, x), fle(pr.second, r))); add_pc(z3::implies(fle(x, pr.first), fle(r, pr.second))); }
     prev->push_back({x, r}); }
   else if (n == "log") { use_axiom("FP log: log(NaN)=NaN, log(x<0)=NaN, log(+-0)=-inf, log(+inf)=+inf, log(1)=0, finite for finite x>0, log(x)<=0 iff x<=1, non-decreasing");
-    slv->add(z3::implies(isnan(x) || flt(x, zero), isnan(r))); slv->add(z3::implies(feq(x, zero), feq(r, ninf))); slv->add(z3::implies(feq(x, pinf), feq(r, pinf)));
-    slv->add(z3::implies(flt(zero, x), !isnan(r))); slv->add(z3::implies(flt(zero, x) && !feq(x, pinf), flt(ninf, r) && flt(r, pinf)));
-    slv->add(z3::implies(flt(zero, x), fle(x, one) == fle(r, zero))); slv->add(z3::implies(feq(x, one), feq(r, zero)));
+    add_pc(z3::implies(isnan(x) || flt(x, zero), isnan(r))); add_pc(z3::implies(feq(x, zero), feq(r, ninf))); add_pc(z3::implies(feq(x, pinf), feq(r, pinf)));
+    add_pc(z3::implies(flt(zero, x), !isnan(r))); add_pc(z3::implies(flt(zero, x) && !feq(x, pinf), flt(ninf, r) && flt(r, pinf)));
+    add_pc(z3::implies(flt(zero, x), fle(x, one) == fle(r, zero))); add_pc(z3::implies(feq(x, one), feq(r, zero)));
     static std::vector<std::pair<z3::expr, z3::expr>>* prev = new std::vector<std::pair<z3::expr, z3::expr>>();
-    for (auto& pr : *prev) { slv->add(z3::implies(fle(pr.first, x) && fle(zero, pr.first), fle(pr.second, r))); slv->add(z3::implies(fle(x, pr.first) && fle(zero, x), fle(r, pr.second))); }
+    for (auto& pr : *prev) { add_pc(z3::implies(fle(pr.first, x) && fle(zero, pr.first), fle(pr.second, r))); add_pc(z3::implies(fle(x, pr.first) && fle(zero, x), fle(r, pr.second))); }
     prev->push_back({x, r}); }
   else { std::string m = "transcendental '" + n + "' of a symbolic value has no FP-mode model"; path_exit(3, m.c_str()); }
   return mk_handle(r);
@@ -550,9 +708,9 @@ static double apply_n(const char* fname, double a, double b, int ar) {
   z3::expr v = ctx->constant((std::string(fname) + "!" + std::to_string(lst.size())).c_str(), *dsort);
   z3::expr zero = ctx->real_val(0);
   for (auto& ap : lst) { z3::expr p = diffp(ta, ap.arg), q = diffp(tb, ap.arg2);
-    slv->add(z3::implies(p == zero && q == zero, v == ap.val));   // Ackermann consistency
+    add_pc(z3::implies(p == zero && q == zero, v == ap.val));   // Ackermann consistency
     auto it = app_mono->find(fname);
-    if (it != app_mono->end() && ar == 1) { if (it->second) { slv->add((p < zero) == (v < ap.val)); } else { slv->add(z3::implies(p <= zero, v <= ap.val)); slv->add(z3::implies(p >= zero, v >= ap.val)); } } }
+    if (it != app_mono->end() && ar == 1) { if (it->second) { add_pc((p < zero) == (v < ap.val)); } else { add_pc(z3::implies(p <= zero, v <= ap.val)); add_pc(z3::implies(p >= zero, v >= ap.val)); } } }
   inputs->push_back({std::string(fname) + "!" + std::to_string(lst.size()), v});
   lst.push_back(App{ta, tb, v});
   return mk_handle(v);
@@ -564,13 +722,16 @@ void __sym_axiom_monotone(const char* fname, int strict) { (*app_mono)[fname] = 
 // ---- symbolic differentiation of the recorded DAG (REAL mode) ----
 static Term dexpr(const z3::expr& e, const z3::expr& var, std::map<unsigned, Term>& memo);
 static Term dterm(const Term& t, const z3::expr& var, std::map<unsigned, Term>& memo) {
-  Term dn = dexpr(t.n, var, memo);
-  if (t.d1) return dn;
-  Term dd = dexpr(t.d, var, memo);
-  Term N{t.n, ctx->real_val(1), true}, D{t.d, ctx->real_val(1), true};
-  // (n/d)' = (n' d - n d') / d^2
-  Term num = tadd(tmul(dn, D), tmul(N, dd), true);
-  return mkT(num.n, num.d * t.d * t.d);
+  if (tzero(t) || t.nf.empty()) { if (t.df.empty()) return tconst(0); }
+  // value = N / D with N = c*prod(nf), D = prod(df):  (N' D - N D') / D^2
+  Term N{t.c, t.nf, {}}, D{ctx->real_val(1), {}, {}}; for (auto& d : t.df) D.nf.push_back(d.f);
+  Term dn = tconst(0);
+  for (size_t i = 0; i < t.nf.size(); i++) { Term x = dexpr(t.nf[i], var, memo); Term rest{t.c, {}, {}}; for (size_t j = 0; j < t.nf.size(); j++) if (j != i) rest.nf.push_back(t.nf[j]); dn = tadd(dn, tmul(x, rest), false); }
+  if (t.df.empty()) return dn;
+  Term dd = tconst(0);
+  for (size_t i = 0; i < t.df.size(); i++) { Term x = dexpr(t.df[i].f, var, memo); Term rest{ctx->real_val(1), {}, {}}; for (size_t j = 0; j < t.df.size(); j++) if (j != i) rest.nf.push_back(t.df[j].f); dd = tadd(dd, tmul(x, rest), false); }
+  Term invD2{ctx->real_val(1), {}, {}}; for (auto& d : t.df) { invD2.df.push_back(d); invD2.df.push_back(d); }
+  return tmul(tadd(tmul(dn, D), tmul(N, dd), true), invD2);
 }
 static Term find_app_arg(const std::string& cname, std::string& fn, bool& found) {
   size_t p = cname.find('!'); found = false;
@@ -588,15 +749,16 @@ static Term dexpr(const z3::expr& e, const z3::expr& var, std::map<unsigned, Ter
     else {
       std::string fn; bool found; Term arg = find_app_arg(e.decl().name().str(), fn, found);
       if (found) {
-        std::map<unsigned, Term> m2; Term da = dterm(arg, var, memo);
-        Term val{e, ctx->real_val(1), true}, one = tconst(1);
-        if (fn == "exp") r = tmul(val, da);
-        else if (fn == "log") r = tdiv_nosign(da, arg);
+        Term da = dterm(arg, var, memo);
+        Term val = texpr(e), one = tconst(1);
+        if (tzero(da)) r = tconst(0);
+        else if (fn == "exp") r = tmul(val, da);
+        else if (fn == "log") r = tdiv(da, arg);
         else if (fn == "tanh") r = tmul(tadd(one, tmul(val, val), true), da);
-        else if (fn == "atanh") r = tdiv_nosign(da, tadd(one, tmul(arg, arg), true));
+        else if (fn == "atanh") r = tdiv(da, tadd(one, tmul(arg, arg), true));
         else if (fn == "tan") r = tmul(tadd(one, tmul(val, val), false), da);
-        else if (fn == "atan") r = tdiv_nosign(da, tadd(one, tmul(arg, arg), false));
-        else if (fn == "sqrt") r = tdiv_nosign(da, tmul(tconst(2), val));
+        else if (fn == "atan") r = tdiv(da, tadd(one, tmul(arg, arg), false));
+        else if (fn == "sqrt") r = tdiv(da, tmul(tconst(2), val));
         else if (fn == "cosh") { double th = 0; auto& l = (*tapps)["tanh"]; bool ok = false; for (auto& ap : l) if (same_arg(ap.arg, arg)) { th = ap.h; ok = true; } if (!ok) path_exit(3, "diff: cosh without tanh");
           r = tmul(tmul(val, T(th)), da); }   // cosh' = sinh = cosh*tanh
         else path_exit(3, "diff: unsupported function");
@@ -607,11 +769,11 @@ static Term dexpr(const z3::expr& e, const z3::expr& var, std::map<unsigned, Ter
     if (k == Z3_OP_ADD) { for (unsigned i = 0; i < na; i++) r = tadd(r, dexpr(e.arg(i), var, memo), false); }
     else if (k == Z3_OP_SUB) { r = dexpr(e.arg(0), var, memo); for (unsigned i = 1; i < na; i++) r = tadd(r, dexpr(e.arg(i), var, memo), true); }
     else if (k == Z3_OP_UMINUS) r = tneg(dexpr(e.arg(0), var, memo));
-    else if (k == Z3_OP_MUL) { for (unsigned i = 0; i < na; i++) { Term t = dexpr(e.arg(i), var, memo); for (unsigned j = 0; j < na; j++) if (j != i) t = tmul(t, Term{e.arg(j), ctx->real_val(1), true}); r = tadd(r, t, false); } }
-    else if (k == Z3_OP_POWER) { if (!e.arg(1).is_numeral()) path_exit(3, "diff: symbolic exponent"); int p = atoi(e.arg(1).get_decimal_string(1).c_str());
-      z3::expr b = e.arg(0); Term t = dexpr(b, var, memo); Term bp = tconst(p); for (int i = 0; i < p - 1; i++) bp = tmul(bp, Term{b, ctx->real_val(1), true}); r = tmul(bp, t); }
-    else if (k == Z3_OP_DIV) { Term N{e.arg(0), ctx->real_val(1), true}, D{e.arg(1), ctx->real_val(1), true}; Term dn = dexpr(e.arg(0), var, memo), dd = dexpr(e.arg(1), var, memo);
-      r = tdiv_nosign(tadd(tmul(dn, D), tmul(N, dd), true), tmul(D, D)); }
+    else if (k == Z3_OP_MUL) { for (unsigned i = 0; i < na; i++) { Term t = dexpr(e.arg(i), var, memo); if (tzero(t)) continue; for (unsigned j = 0; j < na; j++) if (j != i) t = tmul(t, texpr(e.arg(j))); r = tadd(r, t, false); } }
+    else if (k == Z3_OP_POWER) { if (!e.arg(1).is_numeral()) path_exit(3, "diff: symbolic exponent"); int p = atoi(numstr(e.arg(1)).c_str());
+      z3::expr b = e.arg(0); Term t = dexpr(b, var, memo); Term bp = tconst(p); for (int i = 0; i < p - 1; i++) bp = tmul(bp, texpr(b)); r = tmul(bp, t); }
+    else if (k == Z3_OP_DIV) { Term N = texpr(e.arg(0)), D = texpr(e.arg(1)); Term dn = dexpr(e.arg(0), var, memo), dd = dexpr(e.arg(1), var, memo);
+      r = tdiv(tadd(tmul(dn, D), tmul(N, dd), true), tmul(D, D)); }
     else if (k == Z3_OP_TO_REAL) r = tconst(0);
     else path_exit(3, "diff: unsupported term kind");
   } else path_exit(3, "diff: unsupported expression");
@@ -621,10 +783,10 @@ static Term dexpr(const z3::expr& e, const z3::expr& var, std::map<unsigned, Ter
 double __sym_diff(double h, double var) {
   if (mode != REAL) path_exit(3, "diff only in REAL mode");
   if (!is_sym(var)) path_exit(3, "diff: variable is not symbolic");
-  Term tv = T(var); if (!tv.d1 || !tv.n.is_const()) path_exit(3, "diff: variable is not a plain input");
+  Term tv = T(var); if (!is_one(tv.c) || tv.nf.size() != 1 || !tv.df.empty() || !tv.nf[0].is_const()) path_exit(3, "diff: variable is not a plain input");
   if (!is_sym(h)) return 0.0;
   std::map<unsigned, Term> memo;
-  return mk_handleT(dterm(T(h), tv.n, memo));
+  return mk_handleT(dterm(T(h), tv.nf[0], memo));
 }
 void verif_harness(void);
 }
@@ -650,18 +812,20 @@ int main(int argc, char** argv) {
   memset(sh, 0, sizeof(Shared)); sh->maxprocs = getenv("SYM_PROCS") ? atoi(getenv("SYM_PROCS")) : 1;
   if (getenv("SYM_BUDGET_S")) sh->deadline = now_s() + atof(getenv("SYM_BUDGET_S"));
   ctx = new z3::context();
-  z3::params p(*ctx); p.set("timeout", timeout_ms);
-  slv = new z3::solver(*ctx); slv->set(p);
+  if (getenv("SYM_INC_TIMEOUT_MS")) inc_timeout_ms = atoi(getenv("SYM_INC_TIMEOUT_MS"));
+  slv = new z3::solver(*ctx); nl_memo = new std::map<unsigned, bool>();
   terms = new std::vector<Term>(); somp = new z3::params(*ctx); somp->set("som", true); somp->set("som_blowup", 100000u); somp->set("expand_power", true); somp->set("arith_lhs", true);
   inputs = new std::vector<std::pair<std::string, z3::expr>>(); choices = new std::vector<std::string>(); axioms_used = new std::vector<std::string>();
   ufs = new std::map<std::string, z3::func_decl>(); tapps = new std::map<std::string, std::vector<TApp>>(); sqrt_of = new std::map<std::string, Term>();
   apps = new std::map<std::string, std::vector<App>>(); app_mono = new std::map<std::string, int>();
   dsort = new z3::sort(mode == REAL ? ctx->real_sort() : ctx->fpa_sort(11, 53));
   if (mode == FP) ctx->set_rounding_mode(z3::RNE);
+  if (mode == REAL) nls = new z3::solver(z3::tactic(*ctx, "qfnra-nlsat").mk_solver());
   std::set_terminate(on_terminate);
   double t0 = now_s();
   pid_t pid = fork();
   if (pid == 0) {
+    signal(SIGALRM, on_alarm); arm_timer();
     signal(SIGSEGV, on_abort_sig); signal(SIGABRT, on_abort_sig); signal(SIGFPE, on_abort_sig); signal(SIGBUS, on_abort_sig); signal(SIGILL, on_abort_sig);
     if (getenv("SYM_PATH_CPU_S")) { /* watchdog per process for termination claims */ }
     verif_harness(); path_exit(0, "");
@@ -669,7 +833,7 @@ int main(int argc, char** argv) {
   int st; waitpid(pid, &st, 0);
   double wall = now_s() - t0;
   if (!WIFEXITED(st) || WEXITSTATUS(st) != 0) note_crash(st);
-  printf("SUMMARY {\"mode\":\"%s\",\"paths_ok\":%ld,\"fail\":%ld,\"pruned\":%ld,\"abort\":%ld,\"cut\":%ld,\"crash\":%ld,\"forks\":%ld,\"solver_calls\":%ld,\"q_sat\":%ld,\"q_unsat\":%ld,\"by_norm\":%ld,\"asserts\":%ld,\"solver_s\":%.3f,\"unknown\":%ld,\"maxdepth\":%ld,\"wall_s\":%.3f}\n", mode == REAL ? "real" : "fp",
-         sh->paths_ok, sh->paths_fail, sh->paths_pruned, sh->paths_abort, sh->paths_cut, sh->paths_crash, sh->forks, sh->solver_calls, sh->q_sat, sh->q_unsat, sh->by_norm, sh->asserts, sh->solver_s, sh->unknowns, sh->maxdepth, wall);
+  printf("SUMMARY {\"mode\":\"%s\",\"paths_ok\":%ld,\"fail\":%ld,\"pruned\":%ld,\"abort\":%ld,\"cut\":%ld,\"crash\":%ld,\"forks\":%ld,\"solver_calls\":%ld,\"q_sat\":%ld,\"q_unsat\":%ld,\"by_norm\":%ld,\"asserts\":%ld,\"solver_s\":%.3f,\"unknown\":%ld,\"fresh_solved\":%ld,\"maxdepth\":%ld,\"wall_s\":%.3f}\n", mode == REAL ? "real" : "fp",
+         sh->paths_ok, sh->paths_fail, sh->paths_pruned, sh->paths_abort, sh->paths_cut, sh->paths_crash, sh->forks, sh->solver_calls, sh->q_sat, sh->q_unsat, sh->by_norm, sh->asserts, sh->solver_s, sh->unknowns, sh->fresh_solved, sh->maxdepth, wall);
   return 0;
 }
